@@ -4,6 +4,7 @@
 //! or a witness result.
 mod archive;
 mod cli;
+mod comp;
 mod derive;
 mod format;
 mod confid;
@@ -46,6 +47,7 @@ fn main() {
             let mut all = enc::witnesses();
             all.extend(writer::witnesses());
             all.extend(repair::witnesses());
+            all.extend(comp::witnesses());
             all.extend(fuzz::witnesses());
             for (name, prop, f) in all {
                 if let Some(o) = &only {
@@ -79,6 +81,14 @@ fn main() {
         "c12" => history::c12_cases(&mut rng, &tier, &mut out),
         "c13" => history::c13_cases(&mut rng, &tier, &mut out),
         "c14" => history::c14_cases(&mut rng, &tier, &mut out),
+        #[cfg(feature = "scaled")]
+        "c11-comp" => comp::c11_comp_cases(&mut rng, &tier, &mut out),
+        #[cfg(feature = "scaled")]
+        "c11-raw" => comp::c11_raw_cases(&mut rng, &tier, &mut out),
+        #[cfg(feature = "scaled")]
+        "c11-stack" => comp::c11_stack_cases(&mut rng, &tier, &mut out),
+        #[cfg(feature = "scaled")]
+        "c11-cw" => comp::c11_cw_cases(&mut rng, &tier, &mut out),
         #[cfg(feature = "scaled")]
         "c11-enc" => enc::c11_enc_cases(&mut rng, &tier, &mut out),
         other => {
